@@ -113,17 +113,17 @@ Proof.
 Qed.
 
 (* ---------- well-formed lists: nonce order, exact total, cap bounds ---------- *)
-Record lwf (l : tlist) : Prop := {
-  lw_sorted : sorted (l_txs l);
-  lw_total : l_total l = sum_cost (l_txs l);
-  lw_cc : Forall (fun t => cost t <= l_costcap l) (l_txs l);
-  lw_gc : Forall (fun t => t_gas t <= l_gascap l) (l_txs l) }.
+Record lwf0 (l : tlist) : Prop := {
+  lw0_sorted : sorted (l_txs l);
+  lw0_total : l_total l = sum_cost (l_txs l);
+  lw0_cc : Forall (fun t => cost t <= l_costcap l) (l_txs l);
+  lw0_gc : Forall (fun t => t_gas t <= l_gascap l) (l_txs l) }.
 
-Lemma lwf_new : forall s, lwf (new_list s).
+Lemma lwf0_new : forall s, lwf0 (new_list s).
 Proof. intros s. split; cbn; try constructor. Qed.
 
-Lemma lwf_total_nonneg : forall l, lwf l -> (0 <= l_total l)%Z.
-Proof. intros l H. rewrite (lw_total _ H). apply sum_cost_nonneg. Qed.
+Lemma lwf0_total_nonneg : forall l, lwf0 l -> (0 <= l_total l)%Z.
+Proof. intros l H. rewrite (lw0_total _ H). apply sum_cost_nonneg. Qed.
 
 (* the price-bump replacement rule of list.Add *)
 Lemma list_add_bump : forall t bump l o l',
@@ -149,7 +149,7 @@ Proof.
     destruct (Z.of_N U256 <=? l_total l + Z.of_N (cost t))%Z; discriminate.
 Qed.
 
-Lemma list_add_wf : forall t bump l r l', lwf l -> list_add t bump l = (r, l') -> lwf l'.
+Lemma list_add_wf0 : forall t bump l r l', lwf0 l -> list_add t bump l = (r, l') -> lwf0 l'.
 Proof.
   intros t bump l r l' W H. unfold list_add in H.
   destruct (match sm_get (t_nonce t) (l_txs l) with
@@ -170,7 +170,7 @@ Proof.
     specialize (Wg x Hx). destruct (l_gascap l <? t_gas t) eqn:E; lia.
 Qed.
 
-Lemma list_forward_wf : forall th l rem l', lwf l -> list_forward th l = (rem, l') -> lwf l'.
+Lemma list_forward_wf0 : forall th l rem l', lwf0 l -> list_forward th l = (rem, l') -> lwf0 l'.
 Proof.
   intros th l rem l' [Ws Wt Wc Wg] H. unfold list_forward, sm_forward in H. inversion H; subst. clear H.
   split; cbn [with_txs l_txs l_total l_costcap l_gascap].
@@ -180,7 +180,7 @@ Proof.
   - apply Forall_filter', Wg.
 Qed.
 
-Lemma list_cap_wf : forall th l d l', lwf l -> list_cap th l = (d, l') -> lwf l'.
+Lemma list_cap_wf0 : forall th l d l', lwf0 l -> list_cap th l = (d, l') -> lwf0 l'.
 Proof.
   intros th l d l' [Ws Wt Wc Wg] H. unfold list_cap, sm_cap in H.
   destruct (Nat.leb (length (l_txs l)) th); inversion H; subst; clear H;
@@ -191,8 +191,8 @@ Proof.
   - rewrite <- (firstn_skipn th (l_txs l)) in Wg. apply Forall_app in Wg. tauto.
 Qed.
 
-Lemma list_remove_wf : forall t l l' inv,
-  lwf l -> In t (l_txs l) -> list_remove t l = (true, inv, l') -> lwf l'.
+Lemma list_remove_wf0 : forall t l l' inv,
+  lwf0 l -> In t (l_txs l) -> list_remove t l = (true, inv, l') -> lwf0 l'.
 Proof.
   intros t l l' inv [Ws Wt Wc Wg] Hin H. unfold list_remove, sm_remove in H.
   destruct (sm_get (t_nonce t) (l_txs l)) as [o|] eqn:Eg; [|discriminate].
@@ -234,7 +234,7 @@ Proof.
     + inversion H; reflexivity.
 Qed.
 
-Lemma list_ready_wf : forall s l rdy l', lwf l -> list_ready s l = (rdy, l') -> lwf l'.
+Lemma list_ready_wf0 : forall s l rdy l', lwf0 l -> list_ready s l = (rdy, l') -> lwf0 l'.
 Proof.
   intros s l rdy l' [Ws Wt Wc Wg] H. unfold list_ready in H.
   destruct (sm_ready s (l_txs l)) as [a b] eqn:E. injection H as Ha Hb. subst rdy l'.
@@ -248,7 +248,7 @@ Proof.
   - rewrite Hsplit in Wg. apply Forall_app in Wg. tauto.
 Qed.
 
-Lemma list_filter_wf : forall cl gl l rem inv l', lwf l -> list_filter cl gl l = (rem, inv, l') -> lwf l'.
+Lemma list_filter_wf0 : forall cl gl l rem inv l', lwf0 l -> list_filter cl gl l = (rem, inv, l') -> lwf0 l'.
 Proof.
   intros cl gl l rem inv l' [Ws Wt Wc Wg] H. unfold list_filter in H.
   destruct ((l_costcap l <=? cl) && (l_gascap l <=? gl)) eqn:Ecap; [inversion H; subst; split; assumption|].
@@ -285,8 +285,8 @@ Proof.
 Qed.
 
 (* what list.Filter keeps is affordable; what it removes is exactly what is not *)
-Lemma list_filter_affordable : forall cl gl l rem inv l' x,
-  lwf l -> list_filter cl gl l = (rem, inv, l') -> In x (l_txs l') -> cost x <= cl /\ t_gas x <= gl.
+Lemma list_filter_affordable0 : forall cl gl l rem inv l' x,
+  lwf0 l -> list_filter cl gl l = (rem, inv, l') -> In x (l_txs l') -> cost x <= cl /\ t_gas x <= gl.
 Proof.
   intros cl gl l rem inv l' x [Ws Wt Wc Wg] H Hx. unfold list_filter in H.
   destruct ((l_costcap l <=? cl) && (l_gascap l <=? gl)) eqn:Ecap.
@@ -476,6 +476,175 @@ Proof.
   destruct H as [Hy Hr].
   destruct (t_nonce t <? t_nonce y) eqn:E1; [lia|]. destruct (t_nonce t =? t_nonce y) eqn:E2; [lia|].
   f_equal. apply (IH t (s + 1)); [exact Hr | lia].
+Qed.
+
+
+(* ---------- the sorted cache of SortedMap ---------- *)
+(* cache = nil, or cache = the nonce-sorted items: what Flatten / LastElement hand out is the list *)
+Definition cache_ok (l : tlist) : Prop := l_cache l = None \/ l_cache l = Some (l_txs l).
+
+Record lwf (l : tlist) : Prop := { lw_base : lwf0 l; lw_cache : cache_ok l }.
+
+Lemma lw_sorted : forall l, lwf l -> sorted (l_txs l). Proof. intros l [W _]. apply (lw0_sorted _ W). Qed.
+Lemma lw_total : forall l, lwf l -> l_total l = sum_cost (l_txs l). Proof. intros l [W _]. apply (lw0_total _ W). Qed.
+Lemma lw_cc : forall l, lwf l -> Forall (fun t => cost t <= l_costcap l) (l_txs l). Proof. intros l [W _]. apply (lw0_cc _ W). Qed.
+Lemma lw_gc : forall l, lwf l -> Forall (fun t => t_gas t <= l_gascap l) (l_txs l). Proof. intros l [W _]. apply (lw0_gc _ W). Qed.
+
+Lemma lwf_new : forall s, lwf (new_list s).
+Proof. intros s. split; [apply lwf0_new | left; reflexivity]. Qed.
+Lemma lwf_total_nonneg : forall l, lwf l -> (0 <= l_total l)%Z.
+Proof. intros l [W _]. apply lwf0_total_nonneg, W. Qed.
+
+Lemma filter_all_false {A} (f : A -> bool) (l : list A) : (forall x, In x l -> f x = false) -> filter f l = [].
+Proof. induction l as [|y l IH]; intros H; [reflexivity|]. cbn [filter]. rewrite (H y (or_introl eq_refl)). apply IH. intros x Hx. apply H. right. exact Hx. Qed.
+Lemma filter_all_true {A} (f : A -> bool) (l : list A) : (forall x, In x l -> f x = true) -> filter f l = l.
+Proof. induction l as [|y l IH]; intros H; [reflexivity|]. cbn [filter]. rewrite (H y (or_introl eq_refl)). f_equal. apply IH. intros x Hx. apply H. right. exact Hx. Qed.
+
+(* Forward's m.cache[len(removed):] is the kept part, because the removed txs are a prefix *)
+Lemma sorted_forward_skipn : forall th l, sorted l ->
+  skipn (length (filter (fun t => t_nonce t <? th) l)) l = filter (fun t => negb (t_nonce t <? th)) l.
+Proof.
+  unfold sorted. induction l as [|x l IH]; intros Hs; [reflexivity|].
+  apply StronglySorted_inv in Hs. destruct Hs as [Hs Hf]. rewrite Forall_forall in Hf. cbn [filter].
+  destruct (t_nonce x <? th) eqn:E; cbn [negb length skipn]; [apply IH, Hs|].
+  assert (Hall : forall y, In y l -> (t_nonce y <? th) = false).
+  { intros y Hy. pose proof (Hf y Hy) as Hlt. unfold nlt in Hlt. apply N.ltb_ge. apply N.ltb_ge in E. lia. }
+  rewrite (filter_all_false _ l Hall). cbn [length skipn]. f_equal. symmetry. apply filter_all_true.
+  intros y Hy. rewrite (Hall y Hy). reflexivity.
+Qed.
+
+Lemma list_add_wf : forall t bump l r l', lwf l -> list_add t bump l = (r, l') -> lwf l'.
+Proof.
+  intros t bump l r l' [W C] H. split; [eapply list_add_wf0; eassumption|].
+  unfold list_add in H.
+  destruct (match sm_get (t_nonce t) (l_txs l) with
+            | Some o => if (t_feecap t <=? t_feecap o) || (t_tip t <=? t_tip o) then true
+                        else (t_feecap t <? (100 + bump) * t_feecap o / 100) || (t_tip t <? (100 + bump) * t_tip o / 100)
+            | None => false end); [inversion H; subst; exact C|].
+  destruct (U256 <=? cost t); [inversion H; subst; exact C|].
+  destruct (Z.of_N U256 <=? l_total l + Z.of_N (cost t))%Z; [inversion H; subst; exact C|].
+  inversion H; subst. left. reflexivity.
+Qed.
+
+Lemma list_forward_wf : forall th l rem l', lwf l -> list_forward th l = (rem, l') -> lwf l'.
+Proof.
+  intros th l rem l' [W C] H. split; [eapply list_forward_wf0; eassumption|].
+  unfold list_forward, sm_forward in H. inversion H; subst; clear H. unfold cache_ok. cbn [with_txs l_cache l_txs].
+  destruct C as [C|C]; rewrite C; cbn [option_map]; [left; reflexivity | right].
+  rewrite (sorted_forward_skipn th _ (lw0_sorted _ W)). reflexivity.
+Qed.
+
+Lemma list_filter_wf : forall cl gl l rem inv l', lwf l -> list_filter cl gl l = (rem, inv, l') -> lwf l'.
+Proof.
+  intros cl gl l rem inv l' [W C] H. split; [eapply list_filter_wf0; eassumption|].
+  unfold list_filter in H. destruct ((l_costcap l <=? cl) && (l_gascap l <=? gl)); [inversion H; subst; exact C|].
+  unfold sm_filter in H. destruct (filter _ (l_txs l)); [inversion H; subst; exact C|].
+  destruct (l_strict l); inversion H; subst; left; reflexivity.
+Qed.
+
+Lemma list_cap_wf : forall th l d l', lwf l -> list_cap th l = (d, l') -> lwf l'.
+Proof.
+  intros th l d l' [W C] H. split; [eapply list_cap_wf0; eassumption|].
+  unfold list_cap, sm_cap in H. destruct (Nat.leb (length (l_txs l)) th) eqn:E; inversion H; subst; clear H;
+    unfold cache_ok; cbn [with_txs l_cache l_txs]; (destruct C as [C|C]; rewrite C; cbn [option_map]; [left; reflexivity | right]).
+  - cbn [length]. rewrite Nat.sub_0_r, firstn_all. reflexivity.
+  - apply Nat.leb_gt in E. rewrite rev_length, skipn_length. f_equal. f_equal. lia.
+Qed.
+
+Lemma list_remove_wf : forall t l l' inv,
+  lwf l -> In t (l_txs l) -> list_remove t l = (true, inv, l') -> lwf l'.
+Proof.
+  intros t l l' inv [W C] Hin H. split; [eapply list_remove_wf0; eassumption|].
+  unfold list_remove, sm_remove in H. destruct (sm_get (t_nonce t) (l_txs l)); [|discriminate].
+  destruct (l_strict l); [unfold sm_filter in H|]; inversion H; subst; left; reflexivity.
+Qed.
+
+Lemma list_ready_wf : forall s l rdy l', lwf l -> list_ready s l = (rdy, l') -> lwf l'.
+Proof.
+  intros s l rdy l' [W C] H. split; [eapply list_ready_wf0; eassumption|].
+  unfold list_ready, sm_ready in H. destruct (l_txs l) as [|x r] eqn:El.
+  - inversion H; subst. unfold cache_ok. cbn [with_txs l_cache l_txs]. rewrite <- El. exact C.
+  - destruct (s <? t_nonce x).
+    + inversion H; subst. unfold cache_ok. cbn [with_txs l_cache l_txs]. rewrite <- El. exact C.
+    + destruct (sm_run (t_nonce x) (x :: r)). inversion H; subst. left. reflexivity.
+Qed.
+
+(* Flatten / LastElement: what is handed out is the nonce-sorted item list, and the list stays well-formed *)
+Lemma list_flatten_spec : forall l c l', lwf l -> list_flatten l = (c, l') ->
+  c = l_txs l /\ lwf l' /\ l_txs l' = l_txs l /\ l_total l' = l_total l /\ l_strict l' = l_strict l /\
+  l_cache l' = Some (l_txs l).
+Proof.
+  intros l c l' [W C] H. unfold list_flatten in H. inversion H; subst; clear H.
+  assert (Hc : match l_cache l with Some c => c | None => l_txs l end = l_txs l) by (destruct C as [C|C]; rewrite C; reflexivity).
+  rewrite Hc. cbn [with_txs l_txs l_total l_strict l_cache].
+  split; [reflexivity|]. split; [|repeat split; reflexivity].
+  split; [destruct W as [Ws Wt Wc Wg]; split; assumption | right; reflexivity].
+Qed.
+
+Lemma list_filter_affordable : forall cl gl l rem inv l' x,
+  lwf l -> list_filter cl gl l = (rem, inv, l') -> In x (l_txs l') -> cost x <= cl /\ t_gas x <= gl.
+Proof. intros cl gl l rem inv l' x [W _]. apply list_filter_affordable0, W. Qed.
+
+(* every history of list operations (with arbitrary arguments) keeps "cache = nil or cache = items" *)
+Inductive lop :=
+| LAdd (t : tx) (bump : N) | LForward (th : N) | LFilter (cl gl : N) | LCap (n : nat)
+| LRemove (t : tx) | LReady (start : N) | LFlatten.
+
+Definition lstep (l : tlist) (o : lop) : tlist :=
+  match o with
+  | LAdd t b => snd (list_add t b l)
+  | LForward th => snd (list_forward th l)
+  | LFilter c g => snd (list_filter c g l)
+  | LCap n => snd (list_cap n l)
+  | LRemove t => snd (list_remove t l)
+  | LReady s => snd (list_ready s l)
+  | LFlatten => snd (list_flatten l)
+  end.
+
+Definition sc_ok (l : tlist) : Prop := sorted (l_txs l) /\ cache_ok l.
+
+Lemma lstep_sc_ok : forall l o, sc_ok l -> sc_ok (lstep l o).
+Proof.
+  intros l o [Hs C]. destruct o as [t b|th|c g|n|t|s|]; cbn [lstep].
+  - unfold list_add.
+    destruct (match sm_get (t_nonce t) (l_txs l) with
+              | Some o => if (t_feecap t <=? t_feecap o) || (t_tip t <=? t_tip o) then true
+                          else (t_feecap t <? (100 + b) * t_feecap o / 100) || (t_tip t <? (100 + b) * t_tip o / 100)
+              | None => false end); [split; assumption|].
+    destruct (U256 <=? cost t); [split; assumption|].
+    destruct (Z.of_N U256 <=? l_total l + Z.of_N (cost t))%Z; [split; assumption|].
+    cbn [snd]. split; [apply sorted_put, Hs | left; reflexivity].
+  - unfold list_forward, sm_forward. cbn [snd]. split; [apply sorted_filter, Hs|]. unfold cache_ok. cbn [with_txs l_cache l_txs].
+    destruct C as [C|C]; rewrite C; cbn [option_map]; [left; reflexivity | right]. rewrite (sorted_forward_skipn th _ Hs). reflexivity.
+  - unfold list_filter. destruct ((l_costcap l <=? c) && (l_gascap l <=? g)); [split; assumption|].
+    unfold sm_filter. destruct (filter _ (l_txs l)) eqn:Ef; [split; assumption|].
+    destruct (l_strict l); cbn [snd]; (split; [repeat apply sorted_filter; exact Hs | left; reflexivity]).
+  - unfold list_cap, sm_cap. destruct (Nat.leb (length (l_txs l)) n) eqn:E; cbn [snd]; unfold sc_ok, cache_ok; cbn [with_txs l_cache l_txs];
+      (split; [first [exact Hs | apply sorted_firstn, Hs]|]); (destruct C as [C|C]; rewrite C; cbn [option_map]; [left; reflexivity | right]).
+    + cbn [length]. rewrite Nat.sub_0_r, firstn_all. reflexivity.
+    + apply Nat.leb_gt in E. rewrite rev_length, skipn_length. f_equal. f_equal. lia.
+  - unfold list_remove, sm_remove. destruct (sm_get (t_nonce t) (l_txs l)); [|split; assumption].
+    destruct (l_strict l); [unfold sm_filter|]; cbn [snd]; (split; [repeat apply sorted_filter; exact Hs | left; reflexivity]).
+  - unfold list_ready, sm_ready. destruct (l_txs l) as [|x r] eqn:El.
+    + cbn [snd]. unfold sc_ok, cache_ok in *. cbn [with_txs l_cache l_txs]. rewrite El in C. split; assumption.
+    + destruct (s <? t_nonce x).
+      * cbn [snd]. unfold sc_ok, cache_ok in *. cbn [with_txs l_cache l_txs]. rewrite El in C. split; assumption.
+      * destruct (sm_run (t_nonce x) (x :: r)) as [a b] eqn:Er. cbn [snd]. split; [|left; reflexivity]. cbn [with_txs l_txs].
+        rewrite (sm_run_split _ _ _ _ Er) in Hs. apply sorted_app in Hs. tauto.
+  - unfold list_flatten. cbn [snd]. unfold sc_ok, cache_ok. cbn [with_txs l_cache l_txs]. split; [exact Hs | right].
+    destruct C as [C|C]; rewrite C; reflexivity.
+Qed.
+
+Lemma lhistory_sc_ok : forall h s, sc_ok (fold_left lstep h (new_list s)).
+Proof.
+  intros h s. assert (H0 : sc_ok (new_list s)) by (split; [constructor | left; reflexivity]).
+  revert H0. generalize (new_list s). induction h as [|o h IH]; intros l H; cbn [fold_left]; [exact H | apply IH, lstep_sc_ok, H].
+Qed.
+
+(* what Flatten hands out after any history of list operations: the sorted items *)
+Lemma lhistory_flatten : forall h s, fst (list_flatten (fold_left lstep h (new_list s))) = l_txs (fold_left lstep h (new_list s)).
+Proof.
+  intros h s. destruct (lhistory_sc_ok h s) as [_ C]. unfold list_flatten. cbn [fst]. destruct C as [C|C]; rewrite C; reflexivity.
 Qed.
 
 (* ---------- the pool invariant as an executable predicate ---------- *)
